@@ -4,7 +4,7 @@ META = {
     "category": "proof",
     "text": "Lean 4 theorems over an executable model of Insert / Update / Delete / Replace / AddColumns / DropColumns / RenameColumn written in the shape of lib/query/query.go and view.go (copy with internal record ids, filtered view, write-back by id, the 'value ambiguous' rule, first-match REPLACE, index-placed ADD): for ALL tables, field lists, value lists, conditions and expressions (arbitrary functions Row -> Except Err _) INSERT = old rows ++ given rows (column mapping by name, missing columns NULL); UPDATE rewrites exactly the SET columns of exactly the records whose condition is TRUE, from the OLD record, keeping header, row count and order; DELETE = filter; REPLACE rewrites each existing record from its first key-equivalent given row and appends the rows no record matched first, in the given order; ADD/DROP/RENAME touch only the named columns; the reported count = inserted / matched / removed; rectangularity is preserved by every statement; folding the per-statement specifications over any statement history equals folding the implementation model. Model tied to /repo by a differential correspondence through the real processor: statement sequences (<= 30, state carried) over file-backed and temporary tables, SELECT * and the logged count compared after EVERY statement, plus frame / count laws computed on the implementation's own before/after tables with the matched set obtained by a separate real SELECT",
     "design_ref": "DESIGN.md section 5, C05",
-    "note": "trusted: Lean kernel; harness + driver (its tiny expression language is evaluated with C06's comparison / arithmetic model on coercion profiles reported by the real value.To* functions); column names compared exactly (generators use distinct lower-case identifiers); REPLACE's key equivalence is a parameter of the theorems (the driver uses C07's SortVal.equiv); multi-table UPDATE/DELETE: the new tables are computed per target table over the filtered cross join, the reported error by a row-major scan in the order of the Go loop; stdin-backed tables are not generated",
+    "note": "trusted: Lean kernel; harness + driver (its tiny expression language is evaluated with C06's comparison / arithmetic model on coercion profiles reported by the real value.To* functions); column names compared exactly (generators use distinct lower-case identifiers); REPLACE's key equivalence is a parameter of the theorems (the driver uses C07's SortVal.equiv); multi-table UPDATE/DELETE: the new tables are computed per target table over the filtered cross join, the reported error by a row-major scan in the order of the Go loop; stdin-backed tables are not generated; known finding F41: a REPLACE whose VALUES list repeats a key that already exists appends the later duplicate (first-match semantics of View.replace); stated as counter-witness + partial theorem, re-established by a corpus witness on every run",
     "technique": "Lean 4 machine-checked proof (refinement of the id-indirected impl model to map/filter specifications, frame theorems, history fold) + differential correspondence with the Go implementation",
 }
 
@@ -14,7 +14,7 @@ def run(run):
     run.assumptions += [
         "expressions / conditions are arbitrary functions of the record (the theorems do not depend on csvq's evaluator); the correspondence stream uses comparison, AND/OR/NOT, IS NULL and integer arithmetic on integer / NULL / plain-string cells",
         "REPLACE key equivalence: any Boolean relation in the theorems; SortValues.EquivalentTo (C07 model) in the driver",
-        "property-text reading 'REPLACE appends the OTHERS': proved only when the given rows have pairwise non-equivalent keys (replace_appended_keys_are_new_partial); the code appends a later given row with an existing key (replace_appended_keys_are_new_counterexample, law replace_appended_row_with_existing_key)",
+        "known finding F41 - property-text reading 'REPLACE appends the OTHERS': proved only when the given rows have pairwise non-equivalent keys (replace_appended_keys_are_new_partial); the code appends a later given row whose key exists (replace_appended_keys_are_new_counterexample compiles on every run; the corpus witness REPLACE INTO tw (id, v) USING (id) VALUES (1,'b'),(1,'c') on tw = (1,a),(2,x) is run first for every seed and must still fail the law replace_appended_row_with_existing_key); the model describes the code as it behaves",
     ]
     run.obligations_for(["Csvq.Props.C05"])
     run.stream("c05", 2500 if q else 30000)
@@ -23,7 +23,7 @@ def run(run):
             run.stream("c05", 20000, seed_offset=k)
     return run.finish(
         level="proof",
-        rule="statement sequences of 1-30 statements (state carried, COMMIT interleaved) over 1-3 tables per sequence, file-backed CSV and temporary (DECLARE VIEW), 0-400 rows, @@CPU 1-4: INSERT VALUES / INSERT SELECT, single- and multi-table UPDATE / DELETE (cross join and JOIN ON, one or two targets), REPLACE with 0-44 unmatched rows and keys id / data column / both, ALTER ADD (FIRST/LAST/BEFORE/AFTER, DEFAULT expr) / DROP / RENAME; cells integers, NULL, plain strings; conditions from =,<>,<,<=,>,>=, IS NULL, %, AND/OR/NOT; non-trivial = distinct (statement kind, outcome, storage, size band, cpu, position in sequence, count band) signature",
+        rule="corpus first (F41 witness, F4 witness), then statement sequences of 1-30 statements (state carried, COMMIT interleaved) over 1-3 tables per sequence, file-backed CSV and temporary (DECLARE VIEW), 0-400 rows, @@CPU 1-4: INSERT VALUES / INSERT SELECT, single- and multi-table UPDATE / DELETE (cross join and JOIN ON, one or two targets), REPLACE with 0-44 unmatched rows and keys id / data column / both, ALTER ADD (FIRST/LAST/BEFORE/AFTER, DEFAULT expr) / DROP / RENAME; cells integers, NULL, plain strings; conditions from =,<>,<,<=,>,>=, IS NULL, %, AND/OR/NOT; non-trivial = distinct (statement kind, outcome, storage, size band, cpu, position in sequence, count band) signature",
         trusted_base=BASE_TRUST + ["C06 comparison/arithmetic model and C07 SortVal.equiv used by the driver's expression evaluator"],
         checker_cmd="cd /verif/lean && lake build Csvq.Props.C05 && lake env lean <#print axioms for every theorem>",
     )
